@@ -110,6 +110,7 @@ def same_crs_pair(rng: random.Random, kind: Optional[str] = None, ttol: float = 
 def cross_crs_pair(rng: random.Random, max_n: int = 40):
     """(src, dst, placement) in two different CRSs, both inside their lon/lat windows, small extents."""
     e1, e2 = rng.sample(gen.CRS_WINDOWS, 2)
+    gen.crs_churn()
     lo = (max(e1[1], e2[1]), min(e1[3], e2[3]))
     la = (max(e1[2], e2[2]), min(e1[4], e2[4]))
     if lo[1] - lo[0] < 5 or la[1] - la[0] < 5:
